@@ -176,7 +176,38 @@ def run_path(con: Contract, case, prefix, worklist, report: FunctionReport, plan
             for n_, ty_ in con.closure_vars.items():
                 ty2 = (case_types or {}).get(n_, ty_)
                 cv[n_] = ty2.fresh(I, n_)
-            closure_env = Env(cv, None, importlib.import_module(modname).__dict__)
+            # the names the code gives the captured variables: the contract's own, or -- when the code no longer uses
+            # that spelling -- the enclosing function's local with the declared role (Contract.closure_role)
+            real = dict(cv)
+            used = {x.id for x in ast.walk(node) if isinstance(x, ast.Name)}
+            roles = getattr(con, "closure_roles", {}) or {}
+            missing_ = [n_ for n_ in cv if n_ not in used and n_ in roles]
+            if missing_:
+                try:
+                    within = (getattr(con, "located_by", None) or (con.qualname.rsplit(".", 1)[0],))[0]
+                    outer, _m2, _h2 = source.find_function(within)
+                    for n_ in missing_:
+                        want = roles[n_]
+                        hits = set()
+                        for st in ast.walk(outer):
+                            tg = st.targets[0] if isinstance(st, ast.Assign) and len(st.targets) == 1 else (
+                                st.target if isinstance(st, ast.AnnAssign) and st.value is not None else None)
+                            if isinstance(tg, ast.Name):
+                                rhs = ast.unparse(st.value)
+                                if (rhs == want[1:]) if want.startswith("=") else (want in rhs):
+                                    hits.add(tg.id)
+                        hits &= used
+                        if len(hits) == 1:
+                            real[hits.pop()] = real.pop(n_)
+                except KeyError:
+                    pass
+            params_ = {a_.arg for a_ in node.args.posonlyargs + node.args.args + node.args.kwonlyargs}
+            lost = [n_ for n_ in cv if n_ in real and n_ not in used and n_ not in params_]
+            if lost:
+                # the code no longer has a captured variable of that name and none with its role: nothing can be said
+                # about this function on this tree (never a NameError of the engine's own making)
+                raise Unsupported(f"captured variable(s) {lost} of {con.qualname} not found in the code (renamed?)")
+            closure_env = Env(real, None, importlib.import_module(modname).__dict__)
             bindings.update(cv)
             # a "closure variable" that the function now takes as a parameter (the closure became a method: `self`)
             for a_ in node.args.posonlyargs + node.args.args + node.args.kwonlyargs:
